@@ -193,7 +193,31 @@ class Interp:
             self._ast_cache[fn] = ast.parse(src).body[0]
         return fn, self._ast_cache[fn]
 
+    def call_lambda(self, fn, args, kwargs, br):
+        """A lambda of an inlinable module: the ast.Lambda node on its first line, its body evaluated with the arguments bound."""
+        if fn not in self._ast_cache:
+            lines, start = inspect.getsourcelines(fn)
+            # the lambda may sit in the middle of a statement: parse the enclosing top-level statement from the module source
+            mod = ast.parse(inspect.getsource(inspect.getmodule(fn)))
+            found = [n for n in ast.walk(mod) if isinstance(n, ast.Lambda) and n.lineno == fn.__code__.co_firstlineno]
+            if len(found) != 1:
+                raise Unsupported(f'cannot locate the lambda at line {fn.__code__.co_firstlineno} unambiguously')
+            self._ast_cache[fn] = found[0]
+        node = self._ast_cache[fn]
+        self.inlined.add(f'{fn.__module__}.<lambda:{fn.__code__.co_firstlineno}>')
+        names = [a.arg for a in node.args.args]
+        if kwargs or len(names) != len(args) or node.args.vararg or node.args.kwarg or node.args.defaults:
+            raise Unsupported('lambda with defaults / keywords')
+        local = dict(zip(names, args))
+        # free variables of the lambda (closure cells) shadow the module globals
+        env = dict(fn.__globals__)
+        if fn.__closure__:
+            env.update({n: c.cell_contents for n, c in zip(fn.__code__.co_freevars, fn.__closure__)})
+        return self.ev(node.body, env, local, br)
+
     def call_function(self, fn, args, kwargs, br):
+        if getattr(fn, '__name__', '') == '<lambda>':
+            return self.call_lambda(fn, args, kwargs, br)
         fn, fdef = self.fn_ast(fn)
         self.inlined.add(f'{fn.__module__}.{fn.__qualname__}')
         env = fn.__globals__
@@ -586,9 +610,9 @@ class Interp:
 
 
 # ---------------------------------------------------------------------- obligations
-def explore(fn, args, assumptions, models, kwargs=None, max_loop=64):
+def explore(fn, args, assumptions, models, kwargs=None, max_loop=64, inline_prefix='xlcalculator'):
     eng = Engine(assumptions)
-    it = Interp(models, max_loop=max_loop)
+    it = Interp(models, max_loop=max_loop, inline_prefix=inline_prefix)
     leaves = eng.explore(lambda br: it.run(fn, args, br, kwargs))
     return leaves, it
 
